@@ -530,5 +530,76 @@ func round12Specific(c *core.Ctx, rule string) []core.Obligation {
 			obs = append(obs, core.Ob(rule, "all-four-cell-edges:scan", "-", "", st, d))
 		}
 	}
+	// C17-xm2: the gate of UpdateMaxDistance's refinement through the antipode compares the LARGER endpoint distance with
+	// 90 degrees: the maximum over the edge can lie beyond 90 degrees as soon as one endpoint does.
+	if fn := c.Fn("s2", "", "UpdateMaxDistance"); rule == "R-ERRMODEL" {
+		gates, bad := 0, 0
+		if fn != nil {
+			core.AllInstrs(fn, func(in ssa.Instruction) {
+				bo, ok := in.(*ssa.BinOp)
+				if !ok {
+					return
+				}
+				isRight := func(v ssa.Value) bool {
+					k, ok := v.(*ssa.Const)
+					return ok && k.Value != nil && core.IsNamed(k.Type(), "s1", "ChordAngle") && k.Value.String() == "2"
+				}
+				var other ssa.Value
+				switch {
+				case isRight(bo.Y) && (bo.Op == token.GTR || bo.Op == token.GEQ):
+					other = bo.X
+				case isRight(bo.X) && (bo.Op == token.LSS || bo.Op == token.LEQ):
+					other = bo.Y
+				default:
+					return
+				}
+				gates++
+				if calleeName(other) != "maxChordAngle" {
+					bad++
+				}
+			})
+		}
+		one(rule, "UpdateMaxDistance:antipode-gate-on-the-larger-endpoint-distance", fn, bad == 0,
+			fmt.Sprintf("%d comparison(s) with RightChordAngle, each of the result of maxChordAngle", gates),
+			"the refinement through the antipode is gated by a value other than the larger of the two endpoint distances: with one endpoint nearer and one farther than 90 degrees the farthest point of the edge can be interior and farther than both endpoints, and the refinement that finds it is skipped - the reported maximum is too small")
+	}
+	// C20-xm2: in MercatorProjection.ToLatLng the quotient (k-1)/(k+1) is Inf/Inf = NaN for k = +Inf; the guard in
+	// front of it tests k itself (the input coordinate is infinite only at the pole, k overflows from y = 355 on, and
+	// y = -Inf gives k = 0, which needs no guard).
+	if fn := c.Fn("s2", "MercatorProjection", "ToLatLng"); rule == "R-TOLERANCE" {
+		quotients, guarded := 0, 0
+		if fn != nil {
+			core.AllInstrs(fn, func(in ssa.Instruction) {
+				q, ok := in.(*ssa.BinOp)
+				if !ok || q.Op != token.QUO {
+					return
+				}
+				num, ok1 := q.X.(*ssa.BinOp)
+				den, ok2 := q.Y.(*ssa.BinOp)
+				if !ok1 || !ok2 || num.Op != token.SUB || den.Op != token.ADD || num.X != den.X {
+					return
+				}
+				quotients++
+				k := num.X
+				for _, b := range fn.Blocks {
+					iff, ok := b.Instrs[len(b.Instrs)-1].(*ssa.If)
+					if !ok {
+						continue
+					}
+					call, ok := iff.Cond.(*ssa.Call)
+					if !ok || calleeName(call) != "IsInf" || len(call.Call.Args) != 2 || call.Call.Args[0] != k {
+						continue
+					}
+					if core.EdgeDominates(core.Edge{From: b, Idx: 1}, q.Block()) {
+						guarded++
+						return
+					}
+				}
+			})
+		}
+		one(rule, "MercatorProjection.ToLatLng:overflow-guard-on-the-quotient's-operand", fn, guarded == quotients,
+			fmt.Sprintf("%d quotient(s) of the form (k-1)/(k+1), each reached only where math.IsInf(k, 0) was false (a formula without such a quotient has nothing to guard)", quotients),
+			fmt.Sprintf("%d quotient(s) of the form (k-1)/(k+1), %d behind a test math.IsInf(k, ...) of the same k: k = exp(2y) overflows for every y above about 355 (Inf/Inf = NaN latitude), and a test of the input coordinate instead also sends y = -Inf, the image of the south pole, to the north pole", quotients, guarded))
+	}
 	return obs
 }
